@@ -82,7 +82,9 @@ def analyse_copy(prog, trynode, ctor_call, consts):
         if isinstance(stmt.value, ast.Call) and source_of(stmt.value) is not None:
             discarded.append((source_of(stmt.value), stmt.lineno))
 
-    eng = Layout(doms, source_of, consts=consts)
+    helpers = {n.name: n for n in prog.module("cif.py").tree.body if isinstance(n, ast.FunctionDef)
+               and [a.arg for a in n.args.args] == ["atoms", "i"] and len(n.body) <= 14}
+    eng = Layout(doms, source_of, consts=consts, helpers=helpers)
     linevar = U(ctor_call.args[0])
     # statements up to the constructor call
     body = []
@@ -220,7 +222,32 @@ def check(prog, rep):
     if len(copies) == 1:
         r2.ok("sibling|single-assembler", "one assembler serves all record kinds")
 
+    rule_rows(prog, rep, fn)
     rule_flag(prog, rep)
+
+
+def rule_rows(prog, rep, fn):
+    """Every atom_site row is visited for the model it belongs to: full-range row loops without early exits."""
+    from ..core import enclosing_loops
+    r7 = rep.rule("R7", "every atom_site row is visited (full-range row loops, no early exit, rows selected by model number only)", floor=1)
+    loops = [n for n in ast.walk(fn) if isinstance(n, ast.For) and "row_count" in U(n.iter)]
+    if not loops:
+        raise AnalysisError("cif.atom_site: no loop over the atom_site rows found")
+    for k, lp in enumerate(loops):
+        where = f"pdb2pqr/cif.py:{lp.lineno} (atom_site)"
+        full = U(lp.iter) in ("range(atoms.row_count)", "range(0, atoms.row_count)", "range(0, atoms.row_count, 1)")
+        exits = [x for x in ast.walk(lp) if isinstance(x, (ast.Break, ast.Return)) and (isinstance(x, ast.Return) or enclosing_loops(x)[0] is lp)]
+        conts = [x for x in ast.walk(lp) if isinstance(x, ast.Continue) and enclosing_loops(x)[0] is lp]
+        r7.add(f"rows|loop{k}", full and not exits and not conts,
+               f"row loop {U(lp.iter)}: {'full range' if full else 'NOT the full row range'}; early exits {len(exits)}, skips {len(conts)} "
+               "(mmCIF prescribes no row order: rows of one model need not be contiguous)", where)
+        # row selection tests at the top of the loop body: record kind and model number only
+        sel = []
+        for x in lp.body:
+            if isinstance(x, ast.If):
+                sel.append(U(x.test))
+        okc = all(("group_PDB" in t_ or "pdbx_PDB_model_num" in t_) for t_ in sel)
+        r7.add(f"row-selection|loop{k}", okc and bool(sel), f"rows are selected by {sel}", where)
 
 
 def _strip_rec(sig):
